@@ -39,10 +39,14 @@ pub struct Cfg {
     pub k1: bool,
     pub trace: bool,
     pub step_limit: u64,
+    /// defect model K6: `e+` is matched by the runtime's own at-least-once repetition (a skip
+    /// before a failing iteration is given back) instead of pest's unrolling `e ~ e*`; this is
+    /// what pest-typed generates with `pest_optimizer = false`
+    pub native_plus: bool,
 }
 impl Default for Cfg {
     fn default() -> Self {
-        Cfg { stack: StackKind::Full, optimised: false, k1: false, trace: false, step_limit: 400_000 }
+        Cfg { stack: StackKind::Full, optimised: false, k1: false, trace: false, step_limit: 400_000, native_plus: false }
     }
 }
 
@@ -790,6 +794,12 @@ impl<'g> Interp<'g> {
             // The counted forms and `+` are defined by pest through unrolling into sequences,
             // optionals and `*` (pest_meta's unroller); that is their semantics in pest, skip
             // placement included, so they are evaluated through the same unrolling.
+            Expr::RepOnce(inner) if self.cfg.native_plus => self.scope(Scope::Seq, |s| {
+                Ok(match s.rep(inner, pos, atom, look)? {
+                    Some((end, node)) if node.kids.iter().any(|k| k.kind != NK::Skip) => Some((end, node)),
+                    _ => None,
+                })
+            }),
             Expr::RepOnce(inner) => {
                 let u = Expr::Seq(inner.clone(), Box::new(Expr::Rep(inner.clone())));
                 self.eval(&u, pos, atom, look)
